@@ -1,1 +1,312 @@
-fn main() { let c = libtw2_net::Connection::new(); println!("{:?}", c.verif_state()); }
+//! vh-conn replay ...   direction A: reads the ConnExp export of TLC on stdin, replays every
+//!                      transition on two real Connections, compares with the spec's post-state.
+//! vh-conn drive ...    direction B: seeded random / structured driver, records an NDJSON trace.
+//! vh-conn schedule ... re-executes one schedule (replay file) and prints its observable trace.
+use serde_json::json;
+use serde_json::Value;
+use std::collections::HashMap;
+use std::io::BufRead;
+use std::io::Write;
+use vh_common::canon;
+use vh_common::parse_tlc_tuple;
+use vh_conn::*;
+
+fn arg(args: &[String], name: &str, default: &str) -> String {
+    args.iter()
+        .position(|a| a == name)
+        .and_then(|i| args.get(i + 1).cloned())
+        .unwrap_or_else(|| default.to_string())
+}
+
+fn mode_from(args: &[String]) -> Mode {
+    Mode {
+        v7: arg(args, "--v7", "0") == "1",
+        token_mode: arg(args, "--token-mode", "1") == "1",
+        seq_start: arg(args, "--seq-start", "0").parse().unwrap(),
+        init_online: arg(args, "--init-online", "0") == "1",
+    }
+}
+
+/// The part of a spec state that identifies it (the VIEW of ConnSys).
+fn state_key(st: &Value) -> String {
+    canon(st)
+}
+
+fn outcome_json(o: &Outcome) -> Value {
+    json!({"res": o.res, "evs": o.evs, "outs": o.outs})
+}
+
+/// Compare the real world with the spec's post-state; returns (class, field, expected, got).
+fn compare(w: &World, o: &Outcome, exp_out: &Value, exp_st: &Value) -> Option<(String, String, Value, Value)> {
+    if o.res.starts_with("panic") {
+        return Some(("panic".into(), "res".into(), exp_out["res"].clone(), json!(o.res)));
+    }
+    let got_out = outcome_json(o);
+    if canon(&got_out["res"]) != canon(&exp_out["res"]) {
+        return Some(("res".into(), "res".into(), exp_out["res"].clone(), got_out["res"].clone()));
+    }
+    if canon(&got_out["evs"]) != canon(&exp_out["evs"]) {
+        return Some(("events".into(), "evs".into(), exp_out["evs"].clone(), got_out["evs"].clone()));
+    }
+    if canon(&got_out["outs"]) != canon(&exp_out["outs"]) {
+        return Some(("sends".into(), "outs".into(), exp_out["outs"].clone(), got_out["outs"].clone()));
+    }
+    if !w.malformed.is_empty() {
+        return Some(("malformed".into(), "malformed".into(), json!([]), json!(w.malformed)));
+    }
+    let got = w.proj();
+    for f in ["del", "ready", "answered", "net", "sub", "snv", "scl"] {
+        if canon(&got[f]) != canon(&exp_st[f]) {
+            return Some(("observable".into(), f.into(), exp_st[f].clone(), got[f].clone()));
+        }
+    }
+    for e in E {
+        if canon(&got["ep"][e]) != canon(&exp_st["ep"][e]) {
+            // which field?
+            let mut field = format!("ep.{}", e);
+            if let (Some(a), Some(b)) = (got["ep"][e].as_object(), exp_st["ep"][e].as_object()) {
+                for (k, v) in b {
+                    if a.get(k).map(canon) != Some(canon(v)) {
+                        field = format!("ep.{}.{}", e, k);
+                        break;
+                    }
+                }
+            }
+            return Some(("internal".into(), field, exp_st["ep"][e].clone(), got["ep"][e].clone()));
+        }
+    }
+    None
+}
+
+/// Observable trace of one schedule (for the property-level spec ChannelTrace.tla).
+fn observe(mode: Mode, path: &[Value], suffix_rounds: usize) -> Vec<Value> {
+    let mut w = World::new(mode);
+    let mut out = Vec::new();
+    out.push(json!({"a": "reset", "v7": mode.v7, "online": mode.init_online}));
+    let mut seen_malformed = 0;
+    let mut log = |w: &World, act: &Value, o: &Outcome, seen: &mut usize| {
+        let newm: Vec<String> = w.malformed[*seen..].to_vec();
+        *seen = w.malformed.len();
+        let busy: Vec<bool> = (0..2)
+            .map(|e| {
+                let p = w.proj_ep(e);
+                let st = p["st"].as_str().unwrap_or("");
+                matches!(st, "Tok" | "Cing" | "Pend")
+                    || (st == "Onl"
+                        && (p["rq"].as_array().map(|a| !a.is_empty()).unwrap_or(true)
+                            || p["pkt"].as_array().map(|a| !a.is_empty()).unwrap_or(true)
+                            || p["rr"] == json!(true)))
+            })
+            .collect();
+        let st: Vec<String> = (0..2).map(|e| w.proj_ep(e)["st"].as_str().unwrap_or("").to_string()).collect();
+        json!({"a": act["a"], "act": act, "res": if o.res.starts_with("panic") { "panic".to_string() } else { o.res.clone() },
+               "detail": o.res, "evs": o.evs, "nouts": o.outs.len(), "malformed": newm,
+               "nt": [w.needs_tick_ms(0), w.needs_tick_ms(1)], "busy": busy, "st": st,
+               "inflight": w.net[0].len() + w.net[1].len()})
+    };
+    for act in path {
+        let o = w.apply(act);
+        let rec = log(&w, act, &o, &mut seen_malformed);
+        out.push(rec);
+    }
+    // fair suffix on the real objects: deliver everything oldest first, tick whoever is due,
+    // otherwise advance the clock to the earliest reported deadline
+    if suffix_rounds > 0 {
+        out.push(json!({"a": "fair"}));
+        for _ in 0..suffix_rounds {
+            let act;
+            if !w.net[0].is_empty() {
+                act = json!({"a": "deliver", "from": "c", "i": 1});
+            } else if !w.net[1].is_empty() {
+                act = json!({"a": "deliver", "from": "s", "i": 1});
+            } else {
+                let due: Vec<usize> = (0..2).filter(|&e| w.needs_tick_ms(e) == 0).collect();
+                if let Some(&e) = due.first() {
+                    act = json!({"a": "tick", "e": E[e]});
+                } else {
+                    let d: Vec<i64> = (0..2).map(|e| w.needs_tick_ms(e)).filter(|&t| t > 0).collect();
+                    match d.iter().min() {
+                        Some(&d) => act = json!({"a": "advance", "d": d}),
+                        None => break,
+                    }
+                }
+            }
+            let o = w.apply(&act);
+            let rec = log(&w, &act, &o, &mut seen_malformed);
+            out.push(rec);
+        }
+        out.push(json!({"a": "end"}));
+    }
+    out
+}
+
+fn replay(args: &[String]) -> i32 {
+    let mode = mode_from(args);
+    let cand_out = arg(args, "--cand-out", "");
+    let max_cand: usize = arg(args, "--max-cand", "300").parse().unwrap();
+    let suffix: usize = arg(args, "--suffix", "60").parse().unwrap();
+    // state key -> (parent index, act); index 0 = initial
+    let mut paths: Vec<(usize, Value)> = vec![(0, Value::Null)];
+    let mut index: HashMap<String, usize> = HashMap::new();
+    let mut cur: Option<(usize, World)> = None;
+    let mut transitions: u64 = 0;
+    let mut mismatches: HashMap<String, u64> = HashMap::new();
+    let mut cands: Vec<Value> = Vec::new();
+    let mut cand_per_class: HashMap<String, usize> = HashMap::new();
+    let mut samples: Vec<Value> = Vec::new();
+    let mut tlc_tail: Vec<String> = Vec::new();
+    let mut act_counts: HashMap<String, u64> = HashMap::new();
+    let stdin = std::io::stdin();
+
+    let path_of = |paths: &Vec<(usize, Value)>, mut i: usize| -> Vec<Value> {
+        let mut v = Vec::new();
+        while i != 0 {
+            v.push(paths[i].1.clone());
+            i = paths[i].0;
+        }
+        v.reverse();
+        v
+    };
+
+    for line in stdin.lock().lines() {
+        let line = match line {
+            Ok(l) => l,
+            Err(_) => break,
+        };
+        let t = match parse_tlc_tuple(&line) {
+            Some(t) if !t.is_empty() && (t[0] == "S" || t[0] == "T") => t,
+            _ => {
+                if !line.trim().is_empty() {
+                    tlc_tail.push(line);
+                    if tlc_tail.len() > 40 {
+                        tlc_tail.remove(0);
+                    }
+                }
+                continue;
+            }
+        };
+        if t[0] == "S" {
+            let st: Value = serde_json::from_str(&t[1]).expect("state json");
+            let key = state_key(&st);
+            let idx = if index.is_empty() {
+                index.insert(key, 0);
+                0
+            } else {
+                match index.get(&key) {
+                    Some(&i) => i,
+                    None => {
+                        eprintln!("replay: expanded state was never reached: {}", &t[1][..t[1].len().min(300)]);
+                        return 2;
+                    }
+                }
+            };
+            let path = path_of(&paths, idx);
+            vh_common::set_case(&json!({"path": path}).to_string());
+            vh_common::arm(20_000);
+            let mut w = World::new(mode);
+            for a in &path {
+                w.apply(a);
+            }
+            vh_common::disarm();
+            cur = Some((idx, w));
+            continue;
+        }
+        // T line
+        let act: Value = serde_json::from_str(&t[1]).expect("act json");
+        let exp_out: Value = serde_json::from_str(&t[2]).expect("out json");
+        let exp_st: Value = serde_json::from_str(&t[3]).expect("state json");
+        let (from_idx, base) = match &cur {
+            Some((i, w)) => (*i, w),
+            None => {
+                eprintln!("replay: transition before any state");
+                return 2;
+            }
+        };
+        transitions += 1;
+        *act_counts.entry(act["a"].as_str().unwrap_or("?").to_string()).or_insert(0) += 1;
+        let mut w = base.vclone();
+        vh_common::set_case(&json!({"path": path_of(&paths, from_idx), "act": act}).to_string());
+        vh_common::arm(5_000);
+        let o = w.apply(&act);
+        vh_common::disarm();
+        let key = state_key(&exp_st);
+        if !index.contains_key(&key) {
+            paths.push((from_idx, act.clone()));
+            index.insert(key, paths.len() - 1);
+        }
+        if samples.len() < 3 && transitions % 1000 == 17 {
+            let mut p = path_of(&paths, from_idx);
+            p.push(act.clone());
+            samples.push(json!({"schedule": p, "result": outcome_json(&o)}));
+        }
+        if let Some((class, field, exp, got)) = compare(&w, &o, &exp_out, &exp_st) {
+            *mismatches.entry(class.clone()).or_insert(0) += 1;
+            let n = cand_per_class.entry(class.clone()).or_insert(0);
+            if *n < max_cand {
+                *n += 1;
+                let mut p = path_of(&paths, from_idx);
+                p.push(act.clone());
+                cands.push(json!({"class": class, "field": field, "expected": exp, "got": got, "path": p}));
+            }
+        }
+    }
+    // candidates: observable traces for the property-level spec
+    if !cand_out.is_empty() {
+        let mut f = std::fs::File::create(&cand_out).expect("cand-out");
+        for c in &cands {
+            let path: Vec<Value> = c["path"].as_array().unwrap().clone();
+            vh_common::set_case(&json!({"path": path}).to_string());
+            vh_common::arm(20_000);
+            let tr = observe(mode, &path, suffix);
+            vh_common::disarm();
+            for ev in tr {
+                writeln!(f, "{}", ev).unwrap();
+            }
+        }
+    }
+    let total_mismatch: u64 = mismatches.values().sum();
+    let summary = json!({
+        "transitions": transitions,
+        "states": index.len(),
+        "mismatches": mismatches,
+        "mismatch_total": total_mismatch,
+        "candidates": cands,
+        "samples": samples,
+        "actions": act_counts,
+        "tlc_tail": tlc_tail,
+    });
+    println!("{}", summary);
+    0
+}
+
+fn schedule(args: &[String]) -> i32 {
+    let mode = mode_from(args);
+    let file = arg(args, "--file", "");
+    let suffix: usize = arg(args, "--suffix", "60").parse().unwrap();
+    let v: Value = serde_json::from_str(&std::fs::read_to_string(&file).expect("read")).expect("json");
+    let path: Vec<Value> = v["path"].as_array().cloned().unwrap_or_default();
+    vh_common::set_case(&json!({"path": path}).to_string());
+    vh_common::arm(30_000);
+    let tr = observe(mode, &path, suffix);
+    vh_common::disarm();
+    for ev in tr {
+        println!("{}", ev);
+    }
+    0
+}
+
+fn main() {
+    vh_common::quiet_panics();
+    vh_common::start_watchdog();
+    let args: Vec<String> = std::env::args().collect();
+    let rc = match args.get(1).map(|s| s.as_str()) {
+        Some("replay") => replay(&args),
+        Some("schedule") => schedule(&args),
+        Some("drive") => vh_conn::drive::main(&args),
+        _ => {
+            eprintln!("usage: vh-conn replay|drive|schedule ...");
+            2
+        }
+    };
+    std::process::exit(rc);
+}
